@@ -346,11 +346,11 @@ def header_rules(ctx):
              namevar="f", names_over="self.fields_out", ndims="len(self.geo_hi)", time="self.time", levels=L, lv="level",
              geo_low=joined("self.geo_lo", elem_exact=True), geo_high=joined("self.geo_hi", elem_exact=True),
              ref_ratio=lambda line: (len(line.tokens) == 1 and join_of(line.tokens[0]) is not None and
-                                     join_of(line.tokens[0])[3] == "range(self.max_level)") or len(line.tokens) == 0,
+                                     join_of(line.tokens[0])[3] in ("range(self.max_level)", "range:self.max_level")) or len(line.tokens) == 0,
              domain=lambda line: len(line.tokens) == 1 and join_of(line.tokens[0]) is not None and
              join_of(line.tokens[0])[3] == "range:1 + self.max_level",
              steps=lambda line: len(line.tokens) == 1 and join_of(line.tokens[0]) is not None and
-             join_of(line.tokens[0])[3] == "range(1 + self.max_level)" and join_of(line.tokens[0])[2] == "{self.step_number}",
+             join_of(line.tokens[0])[3] in ("range(1 + self.max_level)", "range:1 + self.max_level") and join_of(line.tokens[0])[2] == "{self.step_number}",
              dx=joined("dx_vals", elem_exact=True), coord={"lit:0"}, level_step="self.step_number",
              boxes_count="self.nboxes[level]", boxvar="box", box_lo_hi=("box[0][c]", "box[1][c]"),
              boxes_iter={"len(self.compute_boxes_bounds(level))"}, ndims_iter="3", nlev="1 + self.max_level")
